@@ -286,3 +286,37 @@ func VerifH_C18_Shift_TwoFiles_Origins() {
 	verifAssert(len(oa) == 2, "C10:one-origin-per-written-reference-in-each-file")
 	verifReach("end")
 }
+
+// C18 for find-references: two references to one declaration (kept in another file) on lines 1
+// and 9 of the file that gets the inserted lines - so that the line numbers pass from one digit to
+// two. The origins reported for the declaration are the same, in the same order, up to the shift.
+func VerifH_C18_Shift_Lookups() {
+	main := "any = var.foo\n# 2\n# 3\n# 4\n# 5\n# 6\n# 7\n# 8\nastr = var.foo\nanum = var.bar\n"
+	verifShiftSeedLen = len(main)
+	A := verifParseHCL(main, fa)
+	B := verifStretch(main, fb, 0, 2)
+	path := lang.Path{Path: "dir"}
+	mk := func(name string, f *hcl.File) *Decoder {
+		pc := &PathContext{Schema: verifSchemas(0), Files: map[string]*hcl.File{name: f}, Functions: verifFunctions(), ReferenceTargets: verifTargets()}
+		d := NewDecoder(&verifPathReader{paths: map[string]*PathContext{"dir": pc}})
+		d.SetContext(NewDecoderContext())
+		pd, _ := d.Path(path)
+		if os, err := pd.CollectReferenceOrigins(); err == nil {
+			pc.ReferenceOrigins = os
+		}
+		return d
+	}
+	da, db := mk(fa, A), mk(fb, B)
+	// the declaration of var.foo (verifTargets): vars.tf 1,1,0
+	decl := hcl.Pos{Line: 1, Column: 1, Byte: 0}
+	oa := da.ReferenceOriginsTargetingPos(path, "vars.tf", decl)
+	ob := db.ReferenceOriginsTargetingPos(path, "vars.tf", decl)
+	verifAssert(len(oa) == 2, "C11:find-references-reports-both-references")
+	verifAssert(len(oa) == len(ob), "C18:find-references-count-same")
+	for k := range oa {
+		if k < len(ob) {
+			verifAssert(verifMoved(oa[k].Range, ob[k].Range), "C18:find-references-same-order-and-moved")
+		}
+	}
+	verifReach("end")
+}
